@@ -1,5 +1,6 @@
 import Driver.Proto
 import Driver.Dec
+import Driver.Hist
 
 open Lean
 
@@ -7,6 +8,7 @@ def handleAll (j : Json) : Json :=
   match Driver.getStr j "op" with
   | .ok o =>
     if o.startsWith "spec." || o.startsWith "dis." then Driver.Dec.handle j
+    else if o.startsWith "hist." then Driver.Hist.handle j
     else Driver.jerr s!"unknown op {o}"
   | .error e => Driver.jerr e
 
